@@ -53,6 +53,21 @@ pub(crate) async fn put_cache(app: &Arc<AppShareData>, ty: CacheType, token: &st
     Ok(())
 }
 
+/// the same through the form in which a session reaches every node but the one that took the login, and that node too
+/// after a restart: the request as the Raft log entry carries it (serde JSON of the real types), decoded again, and the
+/// value once more through the snapshot encoding of the cache (CacheValue::to_bytes / from_bytes)
+pub(crate) async fn put_cache_replicated(app: &Arc<AppShareData>, ty: CacheType, token: &str, value: CacheValue) -> anyhow::Result<()> {
+    let bytes = value.to_bytes();
+    let value = CacheValue::from_bytes(&bytes, ty.clone())?;
+    let mut p = CacheSetParam::new(CacheKey::new(ty, Arc::new(token.to_string())), value);
+    p.now = rnacos::now_second_i32();
+    p.ttl = 36000;
+    let wire = serde_json::to_string(&CacheManagerRaftReq::Set(p))?;
+    let req: CacheManagerRaftReq = serde_json::from_str(&wire)?;
+    app.direct_cache_manager.send(req).await??;
+    Ok(())
+}
+
 fn decision(resp: &ServiceResponse<impl actix_web::body::MessageBody>) -> Value {
     let st = resp.status().as_u16();
     let no_login = resp.headers().contains_key("No-Login");
@@ -361,7 +376,13 @@ pub fn main_authz(args: &[String]) -> anyhow::Result<()> {
                         let to_set = |v: &Value| -> Option<Arc<std::collections::HashSet<Arc<String>>>> { Some(Arc::new(v.as_array().cloned().unwrap_or_default().iter().map(|x| Arc::new(x.as_str().unwrap().to_string())).collect())) };
                         let pg = PrivilegeGroup { enabled: true, whitelist_is_all: pv["wl_all"].as_bool().unwrap(), whitelist: to_set(&pv["wl"]), blacklist_is_all: pv["bl_all"].as_bool().unwrap(), blacklist: to_set(&pv["bl"]) };
                         let sess = UserSession { username: Arc::new(format!("u{}", tok)), nickname: None, roles: vec![Arc::new("0".to_string())], namespace_privilege: Some(pg), extend_infos: Default::default(), refresh_time: rnacos::now_second_i32() as u32 };
-                        put_cache(&app, CacheType::UserSession, &tok, CacheValue::UserSession(Arc::new(sess)), false).await?;
+                        // two of three privilege shapes use a session in its replicated / restored form, the third the
+                        // in-memory value the login node holds
+                        if made.len() % 3 == 2 {
+                            put_cache(&app, CacheType::UserSession, &tok, CacheValue::UserSession(Arc::new(sess)), false).await?;
+                        } else {
+                            put_cache_replicated(&app, CacheType::UserSession, &tok, CacheValue::UserSession(Arc::new(sess))).await?;
+                        }
                         made.insert(tok.clone());
                     }
                     let method = actix_web::http::Method::from_bytes(r["method"].as_str().unwrap().as_bytes())?;
